@@ -4,6 +4,16 @@ manifest is valid at every commit)."""
 import json, os, sys
 
 CHECKS = {
+ "C14": ("exploration",
+         "bounded-exhaustive enumeration of style expressions x layout sequences, judged by an SGR state machine",
+         "All 17^3 x 5 expressions f(g(h(leaf))) and 17^3 x 25 expressions f(g(x)+h(y)) over the exported style functions, each followed by every layout sequence of length <=1 (quick, 1.9e6 outputs) / <=2 (thorough, 2.7e7 outputs); per-letter attribute sets equal the union of the enclosing styles, nothing is active at any line end or at the end of the string, and layout never changes a surviving letter's attributes.",
+         "Trusted: lib/oracle SGR machine and the per-function attribute table in checks/c14; decoration cells are checked for neutrality only. Markup documents and frames are checked for neutrality by the C01/C06/C07 enumerations, not here.",
+         "DESIGN.md §3 C14"),
+ "C15": ("model_checking",
+         "bounded-exhaustive document enumeration for the width bound; explicit-state search over render histories (state = cached width) compared with fresh parses",
+         "Every HTML forest with <=2 nodes over 33 labels and <=3/4 nodes over 14 representative labels, every gemtext/Markdown/plaintext line sequence up to 2/3 items, rendered through object.GetMarkup at 16 widths: no line longer than the width. Every width history of length <=2/3 over {1,3,80,81,200} on the complete <=2-node spaces: Render(w) equals a fresh parse's Render(w), and two fresh parses agree.",
+         "Trusted: document grammars in lib/gen; rune-count line length; x/net/html and goldmark are explored through, not modelled.",
+         "DESIGN.md §3 C15"),
  "C13": ("exploration",
          "bounded-exhaustive enumeration of cell strings against layout predicates (small-scope input model checking)",
          "Every string over a 6-cell alphabet up to length 6 (quick) / 8 (thorough) and over a 9-cell alphabet with wide, NBSP, combining and tab cells up to length 4 / 6, through Wrap, DumbWrap, Pad, Indent, Snip and SetLength at every width 1..5 / 1..7, each output judged by predicates transcribed from the statement on an independently tokenized cell list. Complete within the bound; the interactions of long words, blank runs, explicit newlines and style prefixes that break wrapping code all occur at these sizes.",
